@@ -48,6 +48,7 @@ type moduleSpec struct {
 	Module    string     `json:"module"`
 	Namespace string     `json:"namespace"`
 	Roots     []rootSpec `json:"roots"`
+	Uses      []string   `json:"uses"` // modules (earlier in the config) whose definitions are referenced, not re-emitted
 }
 
 type untranslatable struct{ msg string }
@@ -74,11 +75,16 @@ type fnInfo struct {
 	hash     string
 }
 
+var doneGens = map[string]*gen{} // module name → finished generator (for "uses")
+
 type gen struct {
+	used    []*gen
+	spec    moduleSpec
 	fns     map[*types.Func]*fnInfo
 	order   []*types.Func
 	structs map[*types.Named]map[string]bool // used fields
 	sorder  []*types.Named
+	shared  map[*types.Named]int // structs defined by a used module → number of fields it had there
 }
 
 func findDecl(fn *types.Func) (*ast.FuncDecl, *packages.Package) {
@@ -222,8 +228,18 @@ func (g *gen) classify(t types.Type, f *fnInfo, pos token.Pos) ity {
 		}
 		if n != nil {
 			if _, ok := g.structs[n]; !ok {
-				g.structs[n] = map[string]bool{}
-				g.sorder = append(g.sorder, n)
+				shared := false
+				for _, u := range g.used {
+					if m, ok := u.structs[n]; ok {
+						g.structs[n] = m // same map: a field the used module lacks is detected at emit time
+						g.shared[n] = len(m)
+						shared = true
+					}
+				}
+				if !shared {
+					g.structs[n] = map[string]bool{}
+					g.sorder = append(g.sorder, n)
+				}
 			}
 			return ity{kind: "struct", named: n}
 		}
@@ -343,6 +359,9 @@ func containsReturn(n ast.Node) bool {
 		case *ast.ExprStmt:
 			if call, ok := s.X.(*ast.CallExpr); ok {
 				if id, ok := call.Fun.(*ast.Ident); ok && id.Name == "panic" {
+					found = true
+				}
+				if sel, ok := call.Fun.(*ast.SelectorExpr); ok && (strings.HasPrefix(sel.Sel.Name, "Panic") || strings.HasPrefix(sel.Sel.Name, "Fatal")) {
 					found = true
 				}
 			}
@@ -485,6 +504,12 @@ func (c *fctx) block(stmts []ast.Stmt, k func() string) string {
 		if id, ok := call.Fun.(*ast.Ident); ok && id.Name == "panic" {
 			if !c.f.mayPanic {
 				fail(st.Pos(), "internal: panic in function not marked mayPanic")
+			}
+			return "none"
+		}
+		if isLoggerPanic(c.info, call) {
+			if !c.f.mayPanic {
+				fail(st.Pos(), "internal: logger panic in function not marked mayPanic")
 			}
 			return "none"
 		}
@@ -760,6 +785,16 @@ func (c *fctx) isErasedCall(call *ast.CallExpr) bool {
 	return false
 }
 
+// a logger call that does not return (Panic*, Fatal*)
+func isLoggerPanic(info *types.Info, call *ast.CallExpr) bool {
+	if sel, ok := call.Fun.(*ast.SelectorExpr); ok {
+		if t := info.TypeOf(sel.X); t != nil && isLogger(t) {
+			return strings.HasPrefix(sel.Sel.Name, "Panic") || strings.HasPrefix(sel.Sel.Name, "Fatal")
+		}
+	}
+	return false
+}
+
 // cond translates a boolean expression to a Lean Prop-or-Bool usable after `if`.
 func (c *fctx) cond(e ast.Expr) string {
 	return c.expr(e) // all booleans are Bool (decide …) — `if b then` coerces
@@ -794,6 +829,15 @@ func (c *fctx) constLit(tv types.TypeAndValue, pos token.Pos) (string, bool) {
 }
 
 func (c *fctx) exprTo(e ast.Expr, target types.Type) string {
+	if target != nil && target.String() == "error" {
+		if id, ok := e.(*ast.Ident); ok && id.Name == "nil" {
+			return "false"
+		}
+		if t := c.info.TypeOf(e); t != nil && t.String() == "error" {
+			return c.expr(e)
+		}
+		return "true" // a concrete error value: non-nil
+	}
 	// untyped constants take the target's type; otherwise same as expr
 	tv := c.info.Types[e]
 	if tv.Value != nil {
@@ -1254,6 +1298,12 @@ func (g *gen) collect(fn *types.Func) {
 	if _, ok := g.fns[fn]; ok {
 		return
 	}
+	for _, u := range g.used {
+		if fi, ok := u.fns[fn]; ok {
+			g.fns[fn] = fi // defined by a used module: referenced, not re-emitted
+			return
+		}
+	}
 	decl, p := findDecl(fn)
 	if decl == nil || decl.Body == nil {
 		panic(untranslatable{fmt.Sprintf("no source for %s", fn.FullName())})
@@ -1285,6 +1335,10 @@ func (g *gen) collect(fn *types.Func) {
 			if id, ok := s.Fun.(*ast.Ident); ok && id.Name == "panic" {
 				fi.mayPanic = true
 				return true
+			}
+			if isLoggerPanic(p.TypesInfo, s) {
+				fi.mayPanic = true
+				return false
 			}
 			if sel, ok := s.Fun.(*ast.SelectorExpr); ok {
 				if t := p.TypesInfo.TypeOf(sel.X); t != nil && isLogger(t) {
@@ -1323,6 +1377,16 @@ func (g *gen) fixpoint() {
 		for _, fi := range g.fns {
 			for _, cal := range fi.callees {
 				ci := g.fns[cal.Origin()]
+				if ci == nil {
+					for _, u := range g.used {
+						if x := u.fns[cal.Origin()]; x != nil {
+							ci = x
+						}
+					}
+				}
+				if ci == nil {
+					continue
+				}
 				if ci.mayPanic && !fi.mayPanic {
 					fi.mayPanic = true
 					changed = true
@@ -1545,7 +1609,14 @@ func main() {
 					panic(r)
 				}
 			}()
-			g := &gen{fns: map[*types.Func]*fnInfo{}, structs: map[*types.Named]map[string]bool{}}
+			g := &gen{spec: m, fns: map[*types.Func]*fnInfo{}, structs: map[*types.Named]map[string]bool{}, shared: map[*types.Named]int{}}
+			for _, u := range m.Uses {
+				ug := doneGens[u]
+				if ug == nil {
+					panic(untranslatable{"module " + m.Module + " uses " + u + " which was not translated before it"})
+				}
+				g.used = append(g.used, ug)
+			}
 			for _, r := range m.Roots {
 				p := pkgs[r.Pkg]
 				if p == nil {
@@ -1566,8 +1637,18 @@ func main() {
 			for _, fn := range g.order {
 				g.translate(g.fns[fn])
 			}
+			for n, cnt := range g.shared {
+				if len(g.structs[n]) != cnt {
+					panic(untranslatable{fmt.Sprintf("struct %s is defined by a used module but module %s needs more of its fields", n, m.Module)})
+				}
+			}
 			var b strings.Builder
-			fmt.Fprintf(&b, "-- GENERATED by /verif/tools/go2lean from the current /repo working tree. DO NOT EDIT.\nimport AlgoVerif.Base.U64\nset_option linter.unusedVariables false\nnamespace %s\nopen AlgoVerif.U64\n\n", m.Namespace)
+			imports, opens := "", ""
+			for _, u := range g.used {
+				imports += "import AlgoVerif.Gen." + u.spec.Module + "\n"
+				opens += " " + u.spec.Namespace
+			}
+			fmt.Fprintf(&b, "-- GENERATED by /verif/tools/go2lean from the current /repo working tree. DO NOT EDIT.\nimport AlgoVerif.Base.U64\n%sset_option linter.unusedVariables false\nnamespace %s\nopen AlgoVerif.U64%s\n\n", imports, m.Namespace, opens)
 			b.WriteString(g.emitStructs())
 			for _, fn := range g.order {
 				b.WriteString(g.fns[fn].text)
@@ -1586,6 +1667,7 @@ func main() {
 			for _, fn := range g.order {
 				names = append(names, g.fns[fn].name+"@"+g.fns[fn].hash)
 			}
+			doneGens[m.Module] = g
 			fmt.Printf("module=%s functions=%d %s\n", m.Module, len(g.order), strings.Join(names, " "))
 		}()
 	}
